@@ -40,6 +40,14 @@ def jobs(tier, seed):
                 J.append(Job('stream:%s:%s:%s' % ('+'.join(names), 'info' if info else 'full', 'continue' if cont else 'stop'),
                              'harness.c12', 'h_stream', {'msgs': names, 'info_only': info, 'continue_on_error': cont},
                              timeout=3000 if thorough else 900, witnesses=['isolated' if cont else 'surfaced']))
+    for comp in (False, True):
+        for base in ([], [1004]):
+            for k in (1, 2):
+                if k == 2 and comp and base and not thorough:
+                    continue      # 16 000+ paths: thorough only
+                J.append(Job('garbled:%s:%s:+%d' % ('compressed' if comp else 'plain', 'after-001004' if base else 'bare', k), 'harness.c12', 'h_garbled',
+                             {'compressed': comp, 'base': base, 'n_extra': k, 'nbits': 48}, timeout=7000 if thorough else 1200,
+                             max_cex=60, witnesses=['refused'], core=not thorough))
     J.append(Job('main:exception-ladder', 'harness.c12', 'h_main', {}, timeout=300, witnesses=['reported']))
     J.append(Job('canary:assert-instead-of-error', 'harness.c12', 'h_stream', {'msgs': ['A', 'B'], 'kinds': ['stop']}, timeout=600, max_cex=1,
                  mutate="pybufrkit.decoder::                raise PyBufrKitError('Value ({!r}) not as expected ({!r})'.format(-->>                raise AssertionError('Value ({!r}) not as expected ({!r})'.format("))
